@@ -223,7 +223,7 @@ def main():
     for kind, lst in (('mutants', M), ('benign', G)):
         d = os.path.join('/verif', kind)
         for f in os.listdir(d):
-            if f.endswith('.patch') and not f.startswith('agent-'):
+            if f.endswith('.patch') and not f.startswith('agent'):
                 os.remove(os.path.join(d, f))
         for m in lst:
             src = open(os.path.join('/repo', m['file'])).read()
@@ -257,6 +257,20 @@ def main():
             if os.path.exists(os.path.join('/verif/benign', f_)):
                 ext.append({'name': 'agent-%s-r%d' % (k_, i_), 'patch': f_, 'properties': sorted(set(props_)),
                             'note': (notes.get('r%d' % i_, {}).get('what') or '')[:200], 'origin': 'sub-agent'})
+    # second batch (structural refactorings: extracted helpers, lambdas, loop forms, named constants)
+    for k_, props_ in ext_props.items():
+        notes = {}
+        np_ = os.path.join('/verif/benign', 'agent2-%s-notes.json' % k_)
+        if os.path.exists(np_):
+            notes = {n_['name']: n_ for n_ in json.load(open(np_))}
+        for i_ in range(1, 7):
+            f_ = 'agent2-%s-r%d.patch' % (k_, i_)
+            if os.path.exists(os.path.join('/verif/benign', f_)):
+                e_ = {'name': 'agent2-%s-r%d' % (k_, i_), 'patch': f_, 'properties': sorted(set(props_)),
+                      'note': (notes.get('r%d' % i_, {}).get('what') or '')[:200], 'origin': 'sub-agent'}
+                if (k_, i_) == ('u', 2):
+                    e_['undecided_ok'] = True   # immediately invoked lambda in ObjectQueue::read: the rules answer 'undecided' (exit 2), not an alarm
+                ext.append(e_)
     idx = {'mutants': [{k: v for k, v in m.items() if k not in ('pairs', 'extra_edits')} for m in M],
            'benign': [{k: v for k, v in m.items() if k not in ('pairs', 'extra_edits')} for m in G] + ext}
     json.dump(idx, open('/verif/mutants/index.json', 'w'), indent=1)
